@@ -1,60 +1,13 @@
-"""C01 — use-def and ownership consistency: class invariants proved inductive for every public mutator,
-on normal AND exceptional exits.  (C06 re-uses the same targets with the stronger exceptional postcondition.)"""
-from pyvc.core import ClassDecl, FnDecl
-from pyvc.engine import Engine, Target
-from pyvc.sem_stmt import LoopSpec
-from pyvc.types import *  # noqa: F401,F403
-from pyvc.types import BOOL, INT, STR, TOpt, TRef, TSeq
-from . import schema
+"""C01 — use-def and ownership consistency: class invariants proved inductive for every public mutator, on normal AND
+exceptional exits (targets shared with C06, see ir_targets.py)."""
+from . import ir_targets
 
-GC = schema.GC
-CORE = schema.CORE
 LEVEL = "proof"
-TRUSTED = []
-NOT_DECIDED = []
-BOUNDED = []
-
-SPEC = '''
-def io_wf(c):
-    return (nonnull(c.data) and allocated(c.data) and nonnull(c._ref_counter) and allocated(c._ref_counter) and nonnull(c._graph) and
-            forall(lambda v=Value: box(c._ref_counter)[v] == count(box(c.data), v)) and
-            forall(lambda i=int: implies(0 <= i and i < len(box(c.data)), nonnull(box(c.data)[i]) and box(c.data)[i]._graph is c._graph)))
-
-def out_wf(c):
-    return io_wf(c) and c._graph._outputs is c and forall(lambda i=int: implies(0 <= i and i < len(box(c.data)), box(c.data)[i]._is_graph_output))
-
-def in_wf(c):
-    return (io_wf(c) and c._graph._inputs is c and
-            forall(lambda i=int: implies(0 <= i and i < len(box(c.data)), box(c.data)[i]._is_graph_input and box(c.data)[i]._producer is None)))
-
-def own_value(v):
-    return (iff(v._graph is None, not (v._is_graph_input or v._is_graph_output or v._is_initializer)) and
-            implies(v._is_graph_output, nonnull(v._graph._outputs) and count(box(v._graph._outputs.data), v) >= 1) and
-            implies(v._is_graph_input, nonnull(v._graph._inputs) and count(box(v._graph._inputs.data), v) >= 1 and v._producer is None))
-
-def OWN():
-    return (forall(lambda c=GraphOutputs: out_wf(c)) and forall(lambda c=GraphInputs: in_wf(c)) and
-            forall(lambda v=Value: own_value(v)) and
-            forall(lambda c=_GraphIO, d=_GraphIO: implies(c is not d, c.data is not d.data and c._ref_counter is not d._ref_counter)))
-'''
-
-OWN_FIELDS = ["Value._graph", "Value._is_graph_input", "Value._is_graph_output", "Value._is_initializer",
-              "_GraphIO._ref_counter", "_GraphIO.data"]
+TRUSTED = ["count(seq, x) lemmas (effect of list operations on element counts; by induction, assumed)"]
+NOT_DECIDED = ["Graph.sort (algorithm: C12), pass-level callers and histories through passes: bounded stand-in"]
+BOUNDED = [{"name": "C01 short histories of public mutators, runtime invariant (bounded, not a proof)",
+            "script": "bounded_ir.py", "args": ["--prop", "C01"]}]
 
 
 def build(eng, tier):
-    schema.core_ir(eng)
-    eng.spec_fn(SPEC)
-    LV = eng.LIST(TRef("Value")).cls
-    CV = eng.COUNTER(TRef("Value")).cls
-    mod = ["Value._graph", "Value._is_graph_input", "Value._is_graph_output", f"{LV}.$v", f"{CV}.$v", "$alloc"]
-    for cls in ("GraphOutputs", "GraphInputs"):
-        def T(meth, params, **kw):
-            t = Target(f"{cls}.{meth}", mod=GC, qual=f"_GraphIO.{meth}", self_cls=cls, params=params,
-                       requires=["OWN()"] + kw.pop("requires", []), ensures=["OWN()"] + kw.pop("ensures", []),
-                       raises_default=["OWN()"], modifies=mod, **kw)
-            eng.add_target(t)
-        T("append", dict(item=TRef("Value")))
-        T("pop", dict(i=INT))
-        T("remove", dict(item=TRef("Value")))
-        T("insert", dict(i=INT, item=TRef("Value")))
+    ir_targets.build(eng, tier, "C01")
